@@ -9,6 +9,7 @@ mod digest;
 mod deltas;
 mod wal_codec;
 mod wal_rotator;
+mod wal_discovery;
 mod ring;
 mod segment;
 mod flush;
@@ -23,6 +24,12 @@ mod txn_ops;
 mod shard_apply;
 mod recovery;
 mod repl_state;
+mod list_ops;
+mod hash_set_ops;
+mod readonly_ops;
+mod checkpoint;
+mod manifest_io;
+mod gossip_queue;
 use std::panic;
 
 pub struct Found {
@@ -66,6 +73,7 @@ fn main() {
         // wal_files = the multi-file half of the WAL (truncate_before, recover_all_entries, entries_after): same driver, rotator battery first
         "wal_codec" | "wal_files" => wal_codec::search(&pid, &oid, seed),
         "wal_rotator" => wal_rotator::search(&pid, &oid, seed),
+        "wal_discovery" => wal_discovery::search(&pid, &oid, seed),
         "ring" => ring::search(&pid, &oid, seed),
         "segment" => segment::search(&pid, &oid, seed),
         "flush" => flush::search(&pid, &oid, seed),
@@ -82,6 +90,12 @@ fn main() {
         "txn_ops" => txn_ops::search(&pid, &oid, seed),
         "shard_apply" => shard_apply::search(&pid, &oid, seed),
         "repl_state" => repl_state::search(&pid, &oid, seed),
+        "list_ops" => list_ops::search(&pid, &oid, seed),
+        "hash_set_ops" => hash_set_ops::search(&pid, &oid, seed),
+        "readonly_ops" => readonly_ops::search(&pid, &oid, seed),
+        "checkpoint" => checkpoint::search(&pid, &oid, seed),
+        "manifest_io" => manifest_io::search(&pid, &oid, seed),
+        "gossip_queue" => gossip_queue::search(&pid, &oid, seed),
         "recovery_wal" | "recovered_apply" | "recover_segments" => recovery::search(&pid, &oid, seed),
         _ => None,
     };
